@@ -7,6 +7,8 @@ import (
 	"encoding/json"
 	"fmt"
 	"math/rand"
+	"os"
+	"path/filepath"
 	"sort"
 	"strings"
 
@@ -16,8 +18,10 @@ import (
 	"oss.terrastruct.com/d2/d2graph"
 	"oss.terrastruct.com/d2/d2layouts/d2dagrelayout"
 	"oss.terrastruct.com/d2/d2lib"
+	"oss.terrastruct.com/d2/d2plugin"
 	"oss.terrastruct.com/d2/d2renderers/d2svg"
 	"oss.terrastruct.com/d2/lib/textmeasure"
+	"oss.terrastruct.com/util-go/xmain"
 )
 
 // C26: d2graph.SerializeGraph / DeserializeGraph on compiled graphs, before and after dagre layout.
@@ -26,7 +30,63 @@ import (
 //   serialized JSON, and the arena view of the deserialized graph.
 //   "svg" lines: the same program rendered with the layout done in-process and with the layout done on the far side
 //   of the wire format (serialize → deserialize → layout → serialize → deserialize, as d2plugin exec/serve do).
-func main() { hl.Main("C26", run) }
+func main() {
+	if strings.HasPrefix(filepath.Base(os.Args[0]), "d2plugin-") {
+		// this executable, installed on PATH as d2plugin-vdagre, is an external layout plugin: the bundled dagre engine
+		// behind the real plugin protocol (d2plugin.Serve), which — like real plugins do — also talks on stderr
+		fmt.Fprintln(os.Stderr, "vdagre: warning: this plugin logs to stderr {\"not\": \"json\"}")
+		xmain.Main(d2plugin.Serve(&noisyPlugin{&d2plugin.DagrePlugin}))
+		return
+	}
+	hl.Main("C26", run)
+}
+
+type noisyPlugin struct{ d2plugin.Plugin }
+
+func (p *noisyPlugin) Info(ctx context.Context) (*d2plugin.PluginInfo, error) {
+	i, err := p.Plugin.Info(ctx)
+	if err != nil {
+		return nil, err
+	}
+	c := *i
+	c.Name = "vdagre"
+	return &c, nil
+}
+
+func (p *noisyPlugin) Layout(ctx context.Context, g *d2graph.Graph) error {
+	fmt.Fprintln(os.Stderr, "vdagre: laying out", len(g.Objects), "objects")
+	return p.Plugin.Layout(ctx, g)
+}
+
+// installPlugin puts this executable on PATH as d2plugin-vdagre and returns the plugin as d2 finds it (an execPlugin).
+func installPlugin(c *hl.Ctx, ctx context.Context) (d2plugin.Plugin, string) {
+	exe, err := os.Executable()
+	if err != nil {
+		return nil, "executable: " + err.Error()
+	}
+	dir := filepath.Join(c.Work, "plugbin")
+	os.MkdirAll(dir, 0o755)
+	link := filepath.Join(dir, "d2plugin-vdagre")
+	os.Remove(link)
+	if err := os.Symlink(exe, link); err != nil {
+		return nil, "symlink: " + err.Error()
+	}
+	os.Setenv("PATH", dir)
+	var ps []d2plugin.Plugin
+	var p d2plugin.Plugin
+	if oc := hl.Guard(func() {
+		ps, err = d2plugin.ListPlugins(ctx)
+		if err == nil {
+			p, err = d2plugin.FindPlugin(ctx, ps, "vdagre")
+		}
+	}); oc != "ok" {
+		return nil, oc
+	}
+	if err != nil {
+		return nil, "error: " + err.Error()
+	}
+	return p, ""
+}
 
 func hashJSON(v any) string {
 	b, err := json.Marshal(v)
@@ -107,8 +167,8 @@ func wireView(b []byte) map[string]any {
 	return map[string]any{"root": so(sg.Root), "objs": objs, "edges": edges}
 }
 
-func serdeCase(src string, stage string, g *d2graph.Graph) map[string]any {
-	in := map[string]any{"src": src, "stage": stage}
+func serdeCase(path, src string, stage string, g *d2graph.Graph) map[string]any {
+	in := map[string]any{"src": src, "stage": stage, "path": path}
 	out := map[string]any{}
 	res := map[string]any{"k": "serde", "in": in, "out": out}
 	orig := view(g)
@@ -221,8 +281,11 @@ func genProgram(c *hl.Ctx, r *rand.Rand) string {
 	return sb.String()
 }
 
-func compileOnly(src string) (*d2graph.Graph, error) {
-	g, _, err := d2compiler.Compile("in.d2", strings.NewReader(src), nil)
+var inputPaths = []string{"in.d2", "in.d2", "reports/q1,q2 overview.d2", "a b/c d.d2", "dir.with.dots/x.y.d2", "ü/日本.d2", "a,b,c.d2",
+	"x-1,2-3.d2", "1,2-3,4.d2", "p:1:2.d2", "-", ",", "deep/" + strings.Repeat("long-name/", 20) + "f.d2"}
+
+func compileOnly(path, src string) (*d2graph.Graph, error) {
+	g, _, err := d2compiler.Compile(path, strings.NewReader(src), nil)
 	return g, err
 }
 
@@ -246,14 +309,14 @@ func wireLayout(ctx context.Context, g *d2graph.Graph) error {
 	return d2graph.DeserializeGraph(b2, g)
 }
 
-func renderWith(ctx context.Context, src string, layout d2graph.LayoutGraph) (string, string) {
+func renderWith(ctx context.Context, path, src string, layout d2graph.LayoutGraph, post func(context.Context, []byte) ([]byte, error)) (string, string) {
 	ruler, err := textmeasure.NewRuler()
 	if err != nil {
 		return "", "ruler: " + err.Error()
 	}
 	var svg []byte
 	oc := hl.Guard(func() {
-		opts := &d2lib.CompileOptions{Ruler: ruler, LayoutResolver: func(string) (d2graph.LayoutGraph, error) { return layout, nil }}
+		opts := &d2lib.CompileOptions{Ruler: ruler, InputPath: path, LayoutResolver: func(string) (d2graph.LayoutGraph, error) { return layout, nil }}
 		ro := &d2svg.RenderOpts{}
 		d, _, e := d2lib.Compile(ctx, src, opts, ro)
 		if e != nil {
@@ -261,6 +324,9 @@ func renderWith(ctx context.Context, src string, layout d2graph.LayoutGraph) (st
 			return
 		}
 		svg, err = d2svg.Render(d, ro)
+		if err == nil && post != nil {
+			svg, err = post(ctx, svg)
+		}
 	})
 	if oc != "ok" {
 		return "", oc
@@ -272,15 +338,25 @@ func renderWith(ctx context.Context, src string, layout d2graph.LayoutGraph) (st
 	return hex.EncodeToString(h[:]), ""
 }
 
-func svgCase(ctx context.Context, src string) map[string]any {
-	h1, e1 := renderWith(ctx, src, d2dagrelayout.DefaultLayout)
-	h2, e2 := renderWith(ctx, src, wireLayout)
-	return map[string]any{"k": "svg", "in": map[string]any{"src": src},
-		"out": map[string]any{"direct": h1, "directErr": e1, "wire": h2, "wireErr": e2}}
+var extPlugin d2plugin.Plugin
+var extPluginErr string
+
+func svgCase(ctx context.Context, path, src string) map[string]any {
+	h1, e1 := renderWith(ctx, path, src, d2dagrelayout.DefaultLayout, nil)
+	h2, e2 := renderWith(ctx, path, src, wireLayout, nil)
+	out := map[string]any{"direct": h1, "directErr": e1, "wire": h2, "wireErr": e2}
+	// the real protocol: d2plugin's execPlugin spawning the external plugin binary (layout and postprocess)
+	if extPlugin != nil {
+		h3, e3 := renderWith(ctx, path, src, extPlugin.Layout, extPlugin.PostProcess)
+		out["exec"], out["execErr"] = h3, e3
+	} else {
+		out["exec"], out["execErr"] = "", "plugin not usable: "+extPluginErr
+	}
+	return map[string]any{"k": "svg", "in": map[string]any{"src": src, "path": path}, "out": out}
 }
 
-func layoutFor(ctx context.Context, src string) (*d2graph.Graph, string) {
-	g, err := compileOnly(src)
+func layoutFor(ctx context.Context, path, src string) (*d2graph.Graph, string) {
+	g, err := compileOnly(path, src)
 	if err != nil {
 		return nil, err.Error()
 	}
@@ -304,20 +380,20 @@ func layoutFor(ctx context.Context, src string) (*d2graph.Graph, string) {
 	return g, ""
 }
 
-func one(c *hl.Ctx, ctx context.Context, src string, withLayout, withSVG bool) {
-	g, err := compileOnly(src)
+func one(c *hl.Ctx, ctx context.Context, path, src string, withLayout, withSVG bool) {
+	g, err := compileOnly(path, src)
 	if err != nil {
 		c.Count("compile-error")
-		c.Emit(map[string]any{"k": "serde", "triv": true, "in": map[string]any{"src": src, "stage": "compiled"}, "out": map[string]any{"compileErr": true}})
+		c.Emit(map[string]any{"k": "serde", "triv": true, "in": map[string]any{"src": src, "stage": "compiled", "path": path}, "out": map[string]any{"compileErr": true}})
 		return
 	}
 	c.Count("compiled")
 	c.Count(fmt.Sprintf("objects<=%d", (len(g.Objects)/4+1)*4))
-	c.Emit(serdeCase(src, "compiled", g))
+	c.Emit(serdeCase(path, src, "compiled", g))
 	if withLayout {
-		if gl, e := layoutFor(ctx, src); gl != nil {
+		if gl, e := layoutFor(ctx, path, src); gl != nil {
 			c.Count("laid-out")
-			c.Emit(serdeCase(src, "laid-out", gl))
+			c.Emit(serdeCase(path, src, "laid-out", gl))
 		} else {
 			c.Count("layout-failed")
 			_ = e
@@ -325,20 +401,30 @@ func one(c *hl.Ctx, ctx context.Context, src string, withLayout, withSVG bool) {
 	}
 	if withSVG {
 		c.Count("svg-both-paths")
-		c.Emit(svgCase(ctx, src))
+		c.Emit(svgCase(ctx, path, src))
 	}
 }
 
 func run(c *hl.Ctx) error {
 	ctx := hl.QuietCtx()
+	extPlugin, extPluginErr = installPlugin(c, ctx)
+	if extPlugin == nil {
+		c.Count("plugin:unusable")
+	} else {
+		c.Count("plugin:installed")
+	}
 	if cs := c.ReplayCase(); cs != nil {
 		in := cs["in"].(map[string]any)
 		src := in["src"].(string)
+		path, _ := in["path"].(string)
+		if path == "" {
+			path = "in.d2"
+		}
 		if cs["k"] == "svg" {
-			c.Emit(svgCase(ctx, src))
+			c.Emit(svgCase(ctx, path, src))
 			return nil
 		}
-		one(c, ctx, src, in["stage"] == "laid-out", false)
+		one(c, ctx, path, src, in["stage"] == "laid-out", false)
 		return nil
 	}
 	r := c.Rand()
@@ -350,15 +436,21 @@ func run(c *hl.Ctx) error {
 		"x: {near: top-center}\ny\n",
 		"g: {grid-rows: 2; a; b; c}\n",
 	}
-	for _, s := range fixed {
-		one(c, ctx, s, true, true)
+	for i, s := range fixed {
+		one(c, ctx, inputPaths[(i*2)%len(inputPaths)], s, true, true)
 		c.Count("fixed")
 	}
 	n := c.Pick(400, 8000)
 	nl := c.Pick(60, 900)
 	ns := c.Pick(20, 250)
 	for i := 0; i < n; i++ {
-		one(c, ctx, genProgram(c, r), i < nl, i < ns)
+		path := inputPaths[r.Intn(len(inputPaths))]
+		if strings.Contains(path, ",") {
+			c.Count("path:comma")
+		} else {
+			c.Count("path:other")
+		}
+		one(c, ctx, path, genProgram(c, r), i < nl, i < ns)
 	}
 	return nil
 }
